@@ -75,8 +75,12 @@ def check_program(col, pp, cfg, prog, queries=None, draw=None):
             val = max(mags + [0.0])
             good = [p for p in PREFIX_LIST if val > 0 and 0.1 <= val / prefix_f(p) < 1e6] if fam != 'U' else ['']
             prefix = draw(st.sampled_from(good if (good and draw(st.integers(0, 4))) else (PREFIX_LIST if fam != 'U' else [''])))
-            queries.append({'obj': key, 'timeframe': tf, 'unit': prefix + fam,
-                            'what': draw(st.sampled_from(['flows', 'flows', 'remaining-after', 'remaining-before']))})
+            what = draw(st.sampled_from(['flows', 'flows', 'remaining-after', 'remaining-before']))
+            queries.append({'obj': key, 'timeframe': tf, 'unit': prefix + fam, 'what': what})
+            if draw(st.integers(0, 2)) == 0:
+                # the same question again in another unit: answers must not depend on what was asked before
+                fam2 = draw(st.sampled_from([f for f in ('L', 'g', 'mol') if f != fam]))
+                queries.append({'obj': key, 'timeframe': tf, 'unit': draw(st.sampled_from(['m', 'u', ''])) + fam2, 'what': what})
     for q in queries:
         col.case()
         key = q['obj']
